@@ -521,6 +521,15 @@ class MyPyAstVisitor:
             if node_type is not None and hasattr(node_type, "ret_type"):
                 node_ret_type = node_type.ret_type
 
+                # Mypy wraps the return type of an "async def" function into a coroutine type, we take the declared type
+                if (
+                    node.is_coroutine
+                    and isinstance(node_ret_type, mp_types.Instance)
+                    and node_ret_type.type.fullname == "typing.Coroutine"
+                    and len(node_ret_type.args) == 3
+                ):
+                    node_ret_type = node_ret_type.args[2]
+
                 if isinstance(node_ret_type, mp_types.NoneType):
                     ret_type = sds_types.NamedType(name="None", qname="builtins.None")
                 else:
